@@ -9,12 +9,12 @@ cd "$WT" || exit 2
 git checkout -q -- src 2>/dev/null; rm -f tests/demo_m*.rs
 git apply --check out/m$K/patch.diff || { echo "patch does not apply"; exit 2; }
 cp out/m$K/demo.rs tests/demo_m$K.rs
-cargo test --offline --test demo_m$K >/tmp/vs_clean.log 2>&1; CLEAN=$?
+cargo test --offline ${DEMO_ARGS:-} --test demo_m$K >/tmp/vs_clean.log 2>&1; CLEAN=$?
 rm -f tests/demo_m$K.rs
 git apply out/m$K/patch.diff
-cargo test --offline --workspace >/tmp/vs_suite.log 2>&1; SUITE=$?
+cargo test --offline --workspace ${SUITE_ARGS:-} >/tmp/vs_suite.log 2>&1; SUITE=$?
 cp out/m$K/demo.rs tests/demo_m$K.rs
-cargo test --offline --test demo_m$K >/tmp/vs_mut.log 2>&1; MUT=$?
+cargo test --offline ${DEMO_ARGS:-} --test demo_m$K >/tmp/vs_mut.log 2>&1; MUT=$?
 rm -f tests/demo_m$K.rs; git checkout -q -- src
 echo "demo on clean HEAD: exit $CLEAN (want 0); suite with mutation: exit $SUITE (want 0); demo with mutation: exit $MUT (want != 0)"
 if [ $CLEAN -eq 0 ] && [ $SUITE -eq 0 ] && [ $MUT -ne 0 ]; then
